@@ -2,7 +2,7 @@ package main
 
 // Process-level parallel exploration: a coordinator owns the work list of decision
 // prefixes; each worker process loads the package itself (own SSA, own solver) and runs one
-// path per request.
+// path per request. Workers are started lazily and reused across harness functions of a job.
 
 import (
 	"bufio"
@@ -14,11 +14,15 @@ import (
 	"strconv"
 	"sync"
 	"time"
+
+	"golang.org/x/tools/go/ssa"
 )
 
 type workerReq struct {
-	Prefix []decision `json:"p,omitempty"`
-	Done   bool       `json:"done,omitempty"`
+	Func    string     `json:"f,omitempty"`
+	Prefix  []decision `json:"p,omitempty"`
+	Collect bool       `json:"collect,omitempty"`
+	Done    bool       `json:"done,omitempty"`
 }
 
 type workerResp struct {
@@ -29,7 +33,12 @@ type workerResp struct {
 	Init   []string       `json:"init,omitempty"`
 }
 
-// cmdWorker: gosmt worker --pkg P --harness DIR --func F --timeout-ms N --seed S --solver z3
+func newHarnessResult(name string) *harnessResult {
+	return &harnessResult{Harness: name, Obligations: map[string]*obligationStat{}, Reach: map[string]map[string]uint64{},
+		ReachCount: map[string]int{}, PathsAborted: map[string]int{}, Funcs: map[string]int{}, Natives: map[string]int{}}
+}
+
+// cmdWorker: gosmt worker --pkg P --harness DIR --timeout-ms N --seed S --solver z3
 func cmdWorker(cfg runConfig) int {
 	enc := json.NewEncoder(os.Stdout)
 	lh, err := loadHarness(cfg.Pkg, cfg.HarnessDir)
@@ -44,17 +53,13 @@ func cmdWorker(cfg runConfig) int {
 	solver = NewSolver(cfg.Solver, cfg.TimeoutMs, cfg.Seed)
 	defer solver.Close()
 	i.ensureInit(lh.pkg)
-	fn := lh.pkg.Func(cfg.Funcs[0])
-	if fn == nil {
-		enc.Encode(workerResp{Err: "harness function not found: " + cfg.Funcs[0]})
-		return 2
-	}
-	name := cfg.Funcs[0]
-	start := time.Now()
-	hres = &harnessResult{Harness: name, Obligations: map[string]*obligationStat{}, Reach: map[string]map[string]uint64{},
-		ReachCount: map[string]int{}, PathsAborted: map[string]int{}, Funcs: map[string]int{}, Natives: map[string]int{}}
 	enc.Encode(workerResp{Ready: true})
 	in := bufio.NewReaderSize(os.Stdin, 1<<20)
+	var cur string
+	var fn *ssa.Function
+	var q0, u0 int
+	var t0 time.Duration
+	var start time.Time
 	for {
 		line, err := in.ReadBytes('\n')
 		if err != nil {
@@ -66,23 +71,43 @@ func cmdWorker(cfg runConfig) int {
 			return 2
 		}
 		if req.Done {
-			break
+			return 0
+		}
+		if req.Collect {
+			if hres == nil || cur != req.Func {
+				enc.Encode(workerResp{Result: nil})
+				continue
+			}
+			hres.Queries = solver.queries - q0
+			hres.SolverTimeS = (solver.solveTime - t0).Seconds()
+			hres.Unknowns = solver.unknowns - u0
+			hres.WallS = time.Since(start).Seconds()
+			for k, n := range i.stubUse {
+				hres.Stubs = append(hres.Stubs, fmt.Sprintf("%s -> %s (%d calls)", k, lh.stubDoc[k], n))
+			}
+			enc.Encode(workerResp{Result: hres, Init: initProblems})
+			hres, cur = nil, ""
+			continue
+		}
+		if cur != req.Func {
+			fn = lh.pkg.Func(req.Func)
+			if fn == nil {
+				enc.Encode(workerResp{Err: "harness function not found: " + req.Func})
+				return 2
+			}
+			cur = req.Func
+			hres = newHarnessResult(cur)
+			for k := range i.stubUse {
+				delete(i.stubUse, k)
+			}
+			q0, u0, t0, start = solver.queries, solver.unknowns, solver.solveTime, time.Now()
 		}
 		out := runPath(i, fn, req.Prefix)
-		accountPath(name, out)
+		accountPath(cur, out)
 		nw := px.newWork
 		px = nil
 		enc.Encode(workerResp{New: nw})
 	}
-	hres.Queries = solver.queries
-	hres.SolverTimeS = solver.solveTime.Seconds()
-	hres.Unknowns = solver.unknowns
-	hres.WallS = time.Since(start).Seconds()
-	for k, n := range i.stubUse {
-		hres.Stubs = append(hres.Stubs, fmt.Sprintf("%s -> %s (%d calls)", k, lh.stubDoc[k], n))
-	}
-	enc.Encode(workerResp{Result: hres, Init: initProblems})
-	return 0
 }
 
 // accountPath folds one path outcome into hres (shared by sequential and worker modes).
@@ -127,13 +152,6 @@ func accountPath(name string, out pathOutcome) {
 		}
 		hres.PathsAborted["ENGINE: "+firstLine(msg)]++
 	}
-}
-
-type workerProc struct {
-	cmd *exec.Cmd
-	in  io.WriteCloser
-	out *bufio.Reader
-	id  int
 }
 
 func mergeResult(dst, src *harnessResult) {
@@ -202,13 +220,73 @@ func mergeResult(dst, src *harnessResult) {
 	}
 }
 
-// parallelExplore explores harness fn with nWorkers worker processes.
-func parallelExplore(cfg runConfig, fn string, nWorkers int, budget time.Duration) (*harnessResult, error) {
-	start := time.Now()
-	self, _ := os.Executable()
-	total := &harnessResult{Harness: fn, Obligations: map[string]*obligationStat{}, Reach: map[string]map[string]uint64{},
-		ReachCount: map[string]int{}, PathsAborted: map[string]int{}, Funcs: map[string]int{}, Natives: map[string]int{}}
+type workerProc struct {
+	cmd   *exec.Cmd
+	in    io.WriteCloser
+	enc   *json.Encoder
+	rd    *bufio.Reader
+	id    int
+	ready bool
+}
 
+func (w *workerProc) read() (*workerResp, error) {
+	line, err := w.rd.ReadBytes('\n')
+	if err != nil {
+		return nil, fmt.Errorf("worker %d died: %v", w.id, err)
+	}
+	var r workerResp
+	if err := json.Unmarshal(line, &r); err != nil {
+		return nil, err
+	}
+	if r.Err != "" {
+		return nil, fmt.Errorf("worker %d: %s", w.id, r.Err)
+	}
+	return &r, nil
+}
+
+type workerPool struct {
+	cfg     runConfig
+	max     int
+	workers []*workerProc
+}
+
+func newPool(cfg runConfig, max int) *workerPool { return &workerPool{cfg: cfg, max: max} }
+
+func (p *workerPool) spawn() (*workerProc, error) {
+	self, _ := os.Executable()
+	id := len(p.workers)
+	cmd := exec.Command(self, "worker", "--pkg", p.cfg.Pkg, "--harness", p.cfg.HarnessDir,
+		"--timeout-ms", strconv.Itoa(p.cfg.TimeoutMs), "--seed", strconv.Itoa(p.cfg.Seed+id), "--solver", p.cfg.Solver)
+	cmd.Stderr = os.Stderr
+	stdin, _ := cmd.StdinPipe()
+	stdout, _ := cmd.StdoutPipe()
+	if err := cmd.Start(); err != nil {
+		return nil, err
+	}
+	w := &workerProc{cmd: cmd, in: stdin, enc: json.NewEncoder(stdin), rd: bufio.NewReaderSize(stdout, 1<<20), id: id}
+	p.workers = append(p.workers, w)
+	return w, nil
+}
+
+func (p *workerPool) close() {
+	for _, w := range p.workers {
+		w.enc.Encode(workerReq{Done: true})
+		w.in.Close()
+		done := make(chan struct{})
+		go func() { w.cmd.Wait(); close(done) }()
+		select {
+		case <-done:
+		case <-time.After(3 * time.Second):
+			w.cmd.Process.Kill()
+		}
+	}
+	p.workers = nil
+}
+
+// explore runs every feasible path of harness fn over the pool.
+func (p *workerPool) explore(fn string, budget time.Duration) (*harnessResult, error) {
+	start := time.Now()
+	total := newHarnessResult(fn)
 	var mu sync.Mutex
 	cond := sync.NewCond(&mu)
 	work := [][]decision{nil}
@@ -216,109 +294,105 @@ func parallelExplore(cfg runConfig, fn string, nWorkers int, budget time.Duratio
 	dispatched := 0
 	var firstErr error
 	truncated := false
-
+	active := 0 // worker goroutines running
 	var wg sync.WaitGroup
-	results := make([]*harnessResult, nWorkers)
-	for w := 0; w < nWorkers; w++ {
-		wg.Add(1)
-		go func(w int) {
-			defer wg.Done()
-			cmd := exec.Command(self, "worker", "--pkg", cfg.Pkg, "--harness", cfg.HarnessDir, "--funcs", fn,
-				"--timeout-ms", strconv.Itoa(cfg.TimeoutMs), "--seed", strconv.Itoa(cfg.Seed+w), "--solver", cfg.Solver)
-			cmd.Stderr = os.Stderr
-			stdin, _ := cmd.StdinPipe()
-			stdout, _ := cmd.StdoutPipe()
-			if err := cmd.Start(); err != nil {
-				mu.Lock()
-				firstErr = err
-				cond.Broadcast()
-				mu.Unlock()
-				return
-			}
-			defer cmd.Wait()
-			rd := bufio.NewReaderSize(stdout, 1<<20)
-			enc := json.NewEncoder(stdin)
-			readResp := func() (*workerResp, error) {
-				line, err := rd.ReadBytes('\n')
-				if err != nil {
-					return nil, fmt.Errorf("worker %d died: %v", w, err)
-				}
-				var r workerResp
-				if err := json.Unmarshal(line, &r); err != nil {
-					return nil, err
-				}
-				if r.Err != "" {
-					return nil, fmt.Errorf("worker %d: %s", w, r.Err)
-				}
-				return &r, nil
-			}
-			fail := func(err error) {
-				mu.Lock()
-				if firstErr == nil {
-					firstErr = err
-				}
-				cond.Broadcast()
-				mu.Unlock()
-				cmd.Process.Kill()
-			}
-			if _, err := readResp(); err != nil { // ready
+
+	fail := func(err error) {
+		mu.Lock()
+		if firstErr == nil {
+			firstErr = err
+		}
+		cond.Broadcast()
+		mu.Unlock()
+	}
+
+	var runWorker func(w *workerProc)
+	runWorker = func(w *workerProc) {
+		defer wg.Done()
+		if !w.ready {
+			if _, err := w.read(); err != nil {
 				fail(err)
 				return
 			}
-			for {
-				mu.Lock()
-				for len(work) == 0 && busy > 0 && firstErr == nil {
-					cond.Wait()
-				}
-				if firstErr != nil || (len(work) == 0 && busy == 0) {
-					cond.Broadcast()
-					mu.Unlock()
-					break
-				}
-				if (budget > 0 && time.Since(start) > budget) || dispatched >= maxPaths {
-					truncated = true
-					work = nil
-					cond.Broadcast()
-					mu.Unlock()
-					break
-				}
-				p := work[len(work)-1]
-				work = work[:len(work)-1]
-				busy++
-				dispatched++
-				mu.Unlock()
-				if err := enc.Encode(workerReq{Prefix: p}); err != nil {
-					fail(err)
-					return
-				}
-				r, err := readResp()
-				if err != nil {
-					fail(err)
-					return
-				}
-				mu.Lock()
-				busy--
-				work = append(work, r.New...)
+			w.ready = true
+		}
+		for {
+			mu.Lock()
+			for len(work) == 0 && busy > 0 && firstErr == nil {
+				cond.Wait()
+			}
+			if firstErr != nil || (len(work) == 0 && busy == 0) {
 				cond.Broadcast()
 				mu.Unlock()
+				return
 			}
-			enc.Encode(workerReq{Done: true})
-			r, err := readResp()
+			if (budget > 0 && time.Since(start) > budget) || dispatched >= maxPaths {
+				truncated = true
+				work = nil
+				cond.Broadcast()
+				mu.Unlock()
+				return
+			}
+			pfx := work[len(work)-1]
+			work = work[:len(work)-1]
+			busy++
+			dispatched++
+			// scale the pool up while there is a backlog
+			if len(work) > 2 && active < p.max && len(p.workers) < p.max {
+				if nw, err := p.spawn(); err == nil {
+					active++
+					wg.Add(1)
+					go runWorker(nw)
+				}
+			}
+			mu.Unlock()
+			if err := w.enc.Encode(workerReq{Func: fn, Prefix: pfx}); err != nil {
+				fail(err)
+				return
+			}
+			r, err := w.read()
 			if err != nil {
 				fail(err)
 				return
 			}
-			results[w] = r.Result
-			stdin.Close()
-		}(w)
+			mu.Lock()
+			busy--
+			work = append(work, r.New...)
+			cond.Broadcast()
+			mu.Unlock()
+		}
 	}
+
+	mu.Lock()
+	if len(p.workers) == 0 {
+		if _, err := p.spawn(); err != nil {
+			mu.Unlock()
+			return nil, err
+		}
+	}
+	for _, w := range p.workers {
+		active++
+		wg.Add(1)
+		go runWorker(w)
+	}
+	mu.Unlock()
 	wg.Wait()
 	if firstErr != nil {
 		return nil, firstErr
 	}
-	for _, r := range results {
-		if r != nil {
-			mergeResult(total, r)
+	for _, w := range p.workers {
+		if !w.ready {
+			continue
+		}
+		if err := w.enc.Encode(workerReq{Func: fn, Collect: true}); err != nil {
+			return nil, err
+		}
+		r, err := w.read()
+		if err != nil {
+			return nil, err
+		}
+		if r.Result != nil {
+			mergeResult(total, r.Result)
 		}
 	}
 	total.Truncated = truncated
